@@ -87,7 +87,13 @@ func (h *handler) OnTick() (time.Duration, gnet.Action) {
 		w.violate("C06", "callback-after-return", "OnTick ran after Run had returned")
 	}
 	d := time.Duration(max(1, w.p.Cfg.TickMs)) * time.Millisecond
+	if w.tickCount > 1 && w.ph == phWorkload {
+		w.probes["ontick-again-during-workload"]++
+	}
 	if w.p.Stop.Source == "tick" && w.tickCount >= max(1, w.p.Stop.AtStep) {
+		if w.tickCount > 1 && w.ph == phWorkload {
+			w.probes["shutdown-from-later-tick"]++
+		}
 		w.otherShutdown = true
 		if !w.stopRequested {
 			w.stopRequested = true
@@ -150,6 +156,13 @@ func (h *handler) OnOpen(c gnet.Conn) (out []byte, action gnet.Action) {
 		cs.addrStr = ra.String()
 	}
 	if cs.udp {
+		if n := cs.cp.OpenReply; n > 0 {
+			// the reply of OnOpen on a connected UDP socket: exactly one datagram
+			cs.udpOpenReply = outPayload(w.newOpID(), n)
+			cs.udpOpenAt = len(w.k.UDPSent)
+			w.probes["udp-conn-open-reply"]++
+			return cs.udpOpenReply, gnet.None
+		}
 		return nil, gnet.None
 	}
 	w.lcAtOpen(cs)
@@ -233,6 +246,7 @@ func (h *handler) OnClose(c gnet.Conn, err error) (action gnet.Action) {
 		return gnet.None
 	}
 	if cs.udp {
+		w.checkUDPOpenReply(cs)
 		cs.closed, cs.closeErr = true, err
 		w.closedN++
 		w.countChanged()
@@ -921,4 +935,26 @@ func connFd(cs *connState) int {
 		return -1
 	}
 	return cs.fd
+}
+
+// checkUDPOpenReply: what OnOpen returned for a connected UDP socket went out
+// as exactly one datagram, before anything else was sent on that socket.
+func (w *World) checkUDPOpenReply(cs *connState) {
+	if cs.udpOpenReply == nil {
+		return
+	}
+	reply := cs.udpOpenReply
+	cs.udpOpenReply = nil
+	if w.k.FdFaulted(cs.fd) || w.peers[cs.idx].udpUnreach {
+		return
+	}
+	for i := cs.udpOpenAt; i < len(w.k.UDPSent); i++ {
+		if r := w.k.UDPSent[i]; r.Fd == cs.fd {
+			if string(r.Payload) != string(reply) {
+				w.violate("C08", "client-open-reply", "conn %d (connected udp): OnOpen returned %d bytes, the first datagram sent on its socket has %d bytes (or other content)", cs.idx, len(reply), len(r.Payload))
+			}
+			return
+		}
+	}
+	w.violate("C08", "client-open-reply", "conn %d (connected udp): OnOpen returned %d bytes, no datagram was sent on its socket", cs.idx, len(reply))
 }
